@@ -347,6 +347,12 @@ def stream_merge(c, N):
         c.sample(case, limit=6)
         i1 = "raise" if r1[0] == "raise" else [impl_side_to_wire(x) for x in r1[1]]
         i2 = "raise" if r2[0] == "raise" else [impl_side_to_wire(x) for x in r2[1]]
+        # ---- oracle: compatible shapes must be accepted, incompatible ones rejected (both orders)
+        comp = _compatible(w[0], w[2]) and _compatible(w[1], w[3])
+        if comp and (i1 == "raise" or i2 == "raise"):
+            c.fail("merge_bounds rejects bound pairs of compatible shapes", case, {"ab": r1[1] if i1 == "raise" else "ok", "ba": r2[1] if i2 == "raise" else "ok"})
+        elif not comp and (i1 != "raise" or i2 != "raise"):
+            c.fail("merge_bounds accepts bound pairs of incompatible shapes or time stamps", case, {"ab": i1, "ba": i2})
         # ---- oracle: order independence, element-wise max/min wherever both sides are defined
         if (i1 == "raise") != (i2 == "raise"):
             c.fail("merge_bounds accepts one argument order and rejects the other", case, {"ab": i1, "ba": i2})
@@ -372,6 +378,25 @@ def stream_merge(c, N):
                     c.disagree(what + " raise/value", case, mo, im)
             elif not _sides_equal(mo, im):
                 c.disagree(what, case, mo, im)
+
+
+def _compatible(a, b):
+    """documented compatibility of two sides (a single-element vector counts as a scalar)"""
+    def kind(w):
+        return "sc" if (w["k"] == "vec" and len(w["v"]) == 1) else w["k"]
+
+    ka, kb = kind(a), kind(b)
+    if ka == "sc" or kb == "sc":
+        return True
+    if ka == "vec" and kb == "vec":
+        return len(a["v"]) == len(b["v"])
+    if {ka, kb} == {"vec", "ts2"}:
+        v, t = (a, b) if ka == "vec" else (b, a)
+        return all(len(r) == len(v["v"]) for r in t["v"])
+    if ka == kb and ka in ("ts", "ts2"):
+        return a["t"] == b["t"] and [len(r) if isinstance(r, list) else 1 for r in a["v"]] == \
+            [len(r) if isinstance(r, list) else 1 for r in b["v"]]
+    return False  # vec with 1-D Timeseries, 1-D with 2-D Timeseries
 
 
 def _sides_equal(a, b):
